@@ -387,11 +387,21 @@ def check_above(case):
             under = sorted((cg - cw).elements())
             over = sorted((cw - cg).elements())
             neg = any(ln.startswith("!") for ln in case["lines"])
-            if not (neg and over):     # libgit2's negation quirks (K01/K03) are judged by the main check only
+            # a link to a directory hidden by a directory-only pattern is K05, judged by the main check only
+            dironly = [ln.strip("/").split("/")[-1] for ln in case["lines"] if ln.endswith("/") and not ln.startswith(("#", "!"))]
+            def k05(p):
+                full = os.path.join(top, p)
+                return os.path.islink(full) and os.path.isdir(full) and \
+                    any(re.match("^" + glob_to_re(d, True) + "$", p.rstrip("/").split("/")[-1]) for d in dironly)
+            k05_hit = [p for p in over if k05(p)]
+            over = [p for p in over if p not in k05_hit]
+            if k05_hit:
+                out.classes.append("k05-in-root-above")
+            if (under or over) and not (neg and over):     # libgit2's negation quirks (K01/K03) are judged by the main check only
                 out.add("C20/git/root-above/%s" % ("under-ignore" if under else "over-ignore"), query=q, lines=case["lines"],
                         wrongly_listed=under[:6], wrongly_ignored=over[:6], mode=case["mode"] or "bfs")
         out.nontrivial = len(want) < len(U) and any("/" in r for r in inside.values() if omitted(r))
-        out.classes = ["root-above-repository", "mode=" + (case["mode"] or "default")]
+        out.classes = list(out.classes) + ["root-above-repository", "mode=" + (case["mode"] or "default")]
         out.sample = {"query": q, "lines": case["lines"], "listed": len(got), "unfiltered": len(U)}
     finally:
         runner.rmtree(cdir)
